@@ -328,7 +328,7 @@ class Parser:
             return e
         if t == "$":
             return {"op": "var", "n": "$" + self.next()}
-        if self.peek() == "(" and (t in FUN1 or t in FUN2 or t in ("none", "ite", "proj", "pproj", "tup", "prod")):
+        if self.peek() == "(" and (t in FUN1 or t in FUN2 or t in ("none", "ite", "proj", "pproj", "tup", "prod", "blk")):
             self.next()
             args = []
             while not self.accept(")"):
@@ -336,6 +336,9 @@ class Parser:
                 self.accept(",")
             if t == "none":
                 return {"op": "none"}
+            if t == "blk":       # blk(v, e1, e2) = the Rust block expression { let v = e1; e2 }
+                assert len(args) == 3 and args[0]["op"] == "var", args
+                return {"op": "blk", "n": args[0]["n"], "a": args[1], "b": args[2]}
             if t == "ite":
                 return {"op": "ite", "c": args[0], "a": args[1], "b": args[2]}
             if t in ("proj", "pproj"):
